@@ -636,11 +636,20 @@ class ResumeFromFile(Contract):
     def must_return(self, shape):
         return True
 
+    def shapes(self):
+        return [{"sampler": sm, "overrides": ov} for sm in (None, "emcee_smc") for ov in (0, 1)]
+
     def setup(self, I, shape):
         path = Str("run.h5")
         L = Fn(lambda I2, a, k, n: NONE, "user_log_likelihood")
         P = Fn(lambda I2, a, k, n: NONE, "user_log_prior")
-        return Pre(ClassRef("Aspire"), [path], {"log_likelihood": L, "log_prior": P}, ghost={"path": path})
+        kw = {"log_likelihood": L, "log_prior": P}
+        g = {"path": path, "sampler": None, "overrides": None}
+        if shape["sampler"]:
+            g["sampler"] = kw["sampler"] = Str(shape["sampler"])
+        if shape["overrides"]:
+            g["overrides"] = kw["resume_kwargs"] = PyDict({"checkpoint_every": IV(z3.Int("override_every"))})
+        return Pre(ClassRef("Aspire"), [path], kw, ghost=g)
 
     def post(self, I, pre, r):
         p, g = I.path, pre.ghost
@@ -663,6 +672,23 @@ class ResumeFromFile(Contract):
             # automatic-checkpointing context) must keep naming it, and config_dict reports _last_sampler_type (ConfigDict)
             lst = r.f.get("_last_sampler_type")
             p.prove(z3.BoolVal(isinstance(lst, Str) and lst.v == "smc"), f"{q}:C14:the rebuilt instance carries the sampler type stored in the file, so a configuration it rewrites still names the sampler that wrote the checkpoint {tag}")
+        if has:
+            # what the next sample_posterior() call of the rebuilt instance falls back on: the sampler that wrote the checkpoint, the stored
+            # population size, the caller's overrides, and the stored checkpoint itself (C11: the resume-from-file route continues *that* run)
+            rst = r.f.get("_resume_sampler_type")
+            given = g.get("sampler")
+            want = given.v if given is not None else "smc"
+            p.prove(z3.BoolVal(isinstance(rst, Str) and rst.v == want),
+                    f"{q}:C11:C14:the sampler primed for the continued run is the one named by the caller, else the one the file's configuration names {tag}")
+            rn = r.f.get("_resume_n_samples")
+            p.prove(to_int(rn) == z3.Int("stored_n_samples") if isinstance(rn, Z) else z3.BoolVal(False), f"{q}:C11:the population size primed for the continued run is the stored one {tag}")
+            ro = r.f.get("_resume_overrides")
+            if g.get("overrides") is not None:
+                p.prove(z3.BoolVal(ro is g["overrides"]), f"{q}:C11:the caller's resume_kwargs are what the continued run is given {tag}")
+            else:
+                p.prove(z3.BoolVal(isinstance(ro, PyDict) and len(ro.d) == 0), f"{q}:C11:without resume_kwargs the continued run gets no overrides {tag}")
+            rb = r.f.get("_resume_from_default")
+            p.prove(z3.BoolVal(isinstance(rb, Sym) and rb.e.eq(z3.Const("stored_checkpoint_bytes", Misc))), f"{q}:C11:the continued run resumes from the checkpoint stored in the file {tag}")
         primed = "_resume_from_default" in r.f and not isinstance(r.f["_resume_from_default"], NoneV)
         p.prove(z3.BoolVal(primed == bool(has)), f"{q}:C11:C12:the stored checkpoint is primed for the next sampling call exactly when the file holds one {tag}")
 
@@ -765,3 +791,132 @@ class SaveConfig(SaveConfigModel):
         else:
             p.prove(z3.BoolVal(st is None), f"{q}:C14:no sampler type is stored before the instance has sampled {tag}")
         p.prove(z3.BoolVal(("sampler_config" in back.d) == bool(sh["include"])), f"{q}:C14:C13:the sampler's configuration is stored exactly when requested {tag}")
+
+
+# ------------------------------------------------------------------------------------------ the reader behind resume_from_file
+class GetFlowWrapperModel(Contract):
+    qual = "flows:get_flow_wrapper"
+    doc = "returns (the flow class of the named back end, its array namespace); the class's load(h5, path) reads the flow stored under that path"
+
+    def model(self, I, info, bound, args, kwargs, node):
+        backend = kwargs.get("backend", args[0] if args else Str("zuko"))
+        fm = kwargs.get("flow_matching", args[1] if len(args) > 1 else B(False))
+        return Tup([Obj("FlowClassStub", {"backend": backend, "flow_matching": fm}), Sym(z3.Const("flow_backend_namespace", Misc), "ns")])
+
+    def usable_at_call(self, I, q):
+        return True
+
+
+def _install_flow_class_stub(reg):
+    def load(I, a, k, n):
+        from contracts.io import group_path
+        h5, path = a[1], k.get("path", a[2] if len(a) > 2 else Str("flow"))
+        root = h5.f["root"] if h5.cls == "H5File" else h5
+        g = group_path(I, root, path.v, create=False, node=n)
+        I.path.event("flow.load", path.v, a[0])
+        return Obj("FlowStub2", {"ver": g.f["ver"], "loaded_by": a[0]})
+    reg.handlers["FlowClassStub.load"] = load
+
+
+class BuildAspireFromFile(BuildAspireFromFileModel):
+    qual = "aspire:Aspire._build_aspire_from_file"
+    properties = ("C13", "C11", "C14")
+    raises = {"ValueError": "configuration or flow missing from the file"}
+    doc = ("the reader behind resume_from_file, run on a file written by the real codec: the rebuilt instance has every saved setting (dims, parameters, "
+           "periodic parameters, bounds, transform options, back end, flow options spread back into the constructor, eps, dtype, namespace resolved by name) "
+           "and the caller's callables; the flow is loaded from the flow path with the class of the saved back end; the checkpoint bytes returned are the "
+           "stored blob, n_samples the size of the stored population, the sampler type and sampler configuration the stored ones; a missing checkpoint gives None")
+
+    def shapes(self):
+        return [{"ckpt": c, "bounds": b, "flow_kwargs": fk, "xp": x, "dtype": d} for c in (0, 1) for b in (0, 1) for fk in (0, 1) for x in (0, 1) for d in (0, 1)
+                if (b == fk == x == d) or c]
+
+    def must_return(self, shape):
+        return True            # every file of the shapes below holds configuration and flow: the reader returns
+
+    def post_raise(self, I, pre, sig):
+        sh = pre.ghost["shape"]
+        I.path.prove(z3.BoolVal(False), f"{self.qual}:C13:C12:a file that holds configuration and flow is read without an exception [{sig.exc}; checkpoint stored: {bool(sh['ckpt'])}]", assume_after=False)
+
+    def setup(self, I, shape):
+        _install_flow_class_stub(I.reg)
+        p = I.path
+        arr = base_arr("a_bound_pair", "real")
+        cfg = {"log_likelihood": Str("user_module:ll"), "log_prior": Str("user_module:lp"), "dims": IV(z3.Int("saved_dims")),
+               "parameters": PyList([Str("mass"), Str("chi")]), "periodic_parameters": PyList([Str("chi")]) if shape["bounds"] else NONE,
+               "prior_bounds": PyDict({"mass": arr, "chi": arr}) if shape["bounds"] else NONE, "bounded_to_unbounded": B(z3.Bool("saved_b2u")),
+               "bounded_transform": Str("probit"), "flow_matching": B(False), "device": NONE,
+               "xp": Str("array_api_compat.numpy") if shape["xp"] else NONE, "flow_backend": Str("flowjax" if shape["flow_kwargs"] else "zuko"),
+               "flow_kwargs": PyDict({"hidden_features": IV(z3.Int("saved_hidden")), "transforms": IV(z3.Int("saved_transforms"))}) if shape["flow_kwargs"] else PyDict({}),
+               "eps": R(z3.Real("saved_eps")), "dtype": Str("float32") if shape["dtype"] else NONE,
+               "sampler_type": Str("smc"), "sampler_config": PyDict({"sampler_class": Str("MiniPCNSMC")})}
+        d = PyDict(dict(cfg))
+        root = mk_group("/")
+        h5 = Obj("H5File", {"root": root, "mode": Str("a"), "closed": B(False), "path": Str("run.h5")})
+        save = I.front.get("utils:recursively_save_to_h5_file")
+        I.depth += 1
+        try:
+            I.call_repo(save, None, [h5, Str("aspire_config"), d], {}, None, force_inline=True)
+        finally:
+            I.depth -= 1
+        fg = mk_group("flow")
+        fg.f["ver"] = Sym(z3.Const("stored_flow_ver", FLOWVER), "flowver")
+        root.f["members"].d["flow"] = fg
+        g = {"cfg": cfg, "shape": shape, "root": root}
+        if shape["ckpt"]:
+            pop = Obj("SMCSamples", {"x": base_arr("stored_x", "row", z3.Int("stored_population_size")), "xp": Sym(z3.Const("stored_xp", Misc), "ns")})
+            state = PyDict({"samples": pop, "sampler": Str("MiniPCNSMC"), "iteration": IV(z3.Int("stored_iteration"))})
+            blob = I.reg.handlers["pickle.dumps"](I, [state], {}, None)
+            ck = mk_group("checkpoint")
+            ck.f["members"].d["state"] = Obj("H5Dataset", {"shape0": IV(blob.n), "data": blob, "name": Str("state"), "resizable": B(True)})
+            root.f["members"].d["checkpoint"] = ck
+            g["blob"], g["state"], g["pop"] = blob, state, pop
+        fs(I)[skey(Str("run.h5"))] = root
+        L = Fn(lambda I2, a, k, n: NONE, "user_log_likelihood")
+        P = Fn(lambda I2, a, k, n: NONE, "user_log_prior")
+        g["L"], g["P"] = L, P
+        kw = {"file_path": Str("run.h5"), "log_likelihood": L, "log_prior": P, "checkpoint_path": Str("checkpoint"), "checkpoint_dset": Str("state"),
+              "flow_path": Str("flow"), "config_path": Str("aspire_config")}
+        return Pre(None, [], kw, ghost=g)
+
+    def post(self, I, pre, r):
+        p, g = I.path, pre.ghost
+        q = self.qual
+        sh, cfg = g["shape"], g["cfg"]
+        tag = f"[{'checkpoint stored' if sh['ckpt'] else 'no checkpoint'}, bounds={sh['bounds']}, flow options={sh['flow_kwargs']}, namespace={sh['xp']}, dtype={sh['dtype']}]"
+        ok = isinstance(r, Tup) and len(r.items) == 6 and isinstance(r.items[0], Obj) and r.items[0].cls == "Aspire"
+        p.prove(z3.BoolVal(ok), f"{q}:C13:returns (instance, bytes, state, sampler config, sampler type, size) {tag}")
+        if not ok:
+            return
+        a, blob, state, scfg, stype, nsmp = r.items
+        from contracts.serialization import struct_equal
+        for k in ("dims", "parameters", "periodic_parameters", "prior_bounds", "bounded_to_unbounded", "bounded_transform", "flow_matching", "device", "flow_backend", "eps", "dtype"):
+            p.prove(struct_equal(I, cfg[k], a.f.get(k, NONE)), f"{q}:C13:the rebuilt instance has the saved setting `{k}` {tag}")
+        fk = a.f.get("flow_kwargs")
+        p.prove(struct_equal(I, cfg["flow_kwargs"], fk) if isinstance(fk, PyDict) else z3.BoolVal(False), f"{q}:C13:the saved flow options are handed back to the constructor as keywords (not nested) {tag}")
+        xp = a.f.get("xp", NONE)
+        if sh["xp"]:
+            from contracts.dtypes import as_ns
+            got = as_ns(xp)
+            p.prove(z3.BoolVal(got is not None and got.f["name"].v == "numpy"), f"{q}:C13:C15:the saved namespace name is resolved to that namespace (and a stored population's namespace does not override it) {tag}")
+        elif not sh["ckpt"]:
+            p.prove(z3.BoolVal(isinstance(xp, NoneV)), f"{q}:C13:no namespace saved, none set {tag}")
+        p.prove(z3.BoolVal(a.f.get("log_likelihood") is g["L"] and a.f.get("log_prior") is g["P"]), f"{q}:C13:the caller's callables are installed {tag}")
+        fl = a.f.get("_flow")
+        good = isinstance(fl, Obj) and fl.cls == "FlowStub2"
+        p.prove(z3.BoolVal(good), f"{q}:C13:C14:the flow stored in the file is loaded into the instance {tag}")
+        if good:
+            p.prove(fl.f["ver"].e == z3.Const("stored_flow_ver", FLOWVER), f"{q}:C14:C11:the loaded flow is the one stored under the flow path {tag}")
+            by = fl.f["loaded_by"]
+            p.prove(z3.BoolVal(isinstance(by.f["backend"], Str) and by.f["backend"].v == cfg["flow_backend"].v), f"{q}:C13:the flow is loaded with the class of the saved back end {tag}")
+        p.prove(z3.BoolVal(isinstance(stype, Str) and stype.v == "smc"), f"{q}:C14:C11:the stored sampler type is returned {tag}")
+        p.prove(struct_equal(I, cfg["sampler_config"], scfg) if isinstance(scfg, PyDict) else z3.BoolVal(False), f"{q}:C13:the stored sampler configuration is returned {tag}")
+        if sh["ckpt"]:
+            p.prove(z3.BoolVal(blob is g["blob"] or (isinstance(blob, Arr) and blob.key == g["blob"].key)), f"{q}:C11:the checkpoint bytes returned are the stored blob {tag}")
+            p.prove(to_int(nsmp) == z3.Int("stored_population_size") if isinstance(nsmp, Z) else z3.BoolVal(False), f"{q}:C11:the population size returned is that of the stored population {tag}")
+            p.prove(z3.BoolVal(isinstance(state, PyDict) and isinstance(state.d.get("sampler"), Str) and state.d["sampler"].v == "MiniPCNSMC"), f"{q}:C11:C14:the decoded checkpoint state is returned {tag}")
+            if not sh["xp"]:
+                p.prove(z3.BoolVal(a.f.get("xp") is g["pop"].f["xp"] or (isinstance(a.f.get("xp"), Sym) and a.f["xp"].e.eq(g["pop"].f["xp"].e))),
+                        f"{q}:C11:C15:without a saved namespace the instance takes the stored population's {tag}")
+        else:
+            p.prove(z3.BoolVal(isinstance(blob, NoneV) and isinstance(state, NoneV) and isinstance(nsmp, NoneV)), f"{q}:C12:C11:a file without a checkpoint gives no resume state (the run restarts) {tag}")
